@@ -7,7 +7,7 @@
    forward._actuator_force (the translator rejects both); bin/props/C27.py runs them against the
    real kernels on every check.  is_derive is Coquelicot's derivative over R.
 
-   NOT proved (differential oracle only): RNE passes, fluid and tendon-damping kernels, float32,
+   NOT proved (differential oracle only): RNE passes, fluid kernels, the tendon kernel's row search, float32,
    DC-motor branches of the actuator kernels. *)
 From Coq Require Import ZArith Reals List Bool String.
 Set Warnings "-ambiguous-paths".
@@ -122,6 +122,47 @@ Theorem C27_qderiv_actuator_passive_write :
            (VS (M_in w madr - h * (qDeriv_in w madr + (if Z.eqb i j then dfdv else 0))))].
 Proof. exact qderiv_actuator_passive_write. Qed.
 Print Assumptions C27_qderiv_actuator_passive_write.
+
+(* passive._spring_damper_tendon_passive, task (world, tendon t, k-th entry of t's Jacobian row), damper
+   enabled: it adds  J[t,k] * damper_force(damping_t, dpoly_t, v_t)  into qfrc_damper_out[w, colind]
+   (damper_force = -v*c(v), linear + polynomial; 0 when all three coefficients are 0) *)
+Theorem C27_passive_tendon_damper_kernel :
+  forall (w t k : Z) (rownnz rowadr colind : Z -> Z) (tstiff : Z -> Z -> R) (tspoly : Z -> Z -> list R)
+         (tdamp : Z -> Z -> R) (tpoly : Z -> Z -> list R) (tls : Z -> Z -> list R)
+         (ten_J_in ten_length_in ten_velocity_in : Z -> Z -> R) (dsbl_spring : bool)
+         (qso qdo : Z -> Z -> R) (orc : nat -> Z) (sh0 sh1 sh2 sh3 sh4 : Z),
+    (0 <= k < rownnz t)%Z ->
+    let adr := (rowadr t + k)%Z in
+    wadded (TP.k__spring_damper_tendon_passive w t k rownnz rowadr colind tstiff tspoly tdamp tpoly tls ten_J_in
+              ten_length_in ten_velocity_in dsbl_spring false qso qdo orc sh0 sh1 sh2 sh3 sh4)
+           "qfrc_damper_out" [w; colind adr]
+    = ten_J_in w adr * damper_force (tdamp (Z.rem w sh2) t) (tpoly (Z.rem w sh3) t) (ten_velocity_in w t).
+Proof. exact passive_tendon_damper_kernel. Qed.
+Print Assumptions C27_passive_tendon_damper_kernel.
+
+(* derivative._qderiv_tendon_damping, element (i,j) present in M: it subtracts
+   h * sum over ALL tendons t of JJ(t) * d(damper_force_t)/dv_t from qDeriv_out[w, madr], where JJ(t)
+   (the product J[t,i]*J[t,j] found by the kernel's row search) is fixed BEFORE the damping
+   coefficients and velocities are chosen: no tendon is skipped because of the values of its
+   linear / polynomial coefficients (the early-out only drops terms that are 0).
+   Not proved: that the row search returns the Jacobian entries of dofs i and j (oracle). *)
+Theorem C27_qderiv_tendon_damping_write :
+  forall (w e ntendon : Z) (rownnz rowadr colind : Z -> Z) (M_elemid : Z -> Z -> Z)
+         (ten_J_in : Z -> Z -> R) (Mi Mj : Z -> Z),
+  exists JJ : Z -> R,
+  forall (opt_timestep : Z -> R) (tdamp : Z -> Z -> R) (tpoly : Z -> Z -> list R) (tvel qDeriv_out : Z -> Z -> R)
+         (orc : nat -> Z) (sh0 sh1 sh2 : Z),
+    let madr := M_elemid (Mi e) (Mj e) in
+    let h := opt_timestep (Z.rem w sh2) in
+    (0 <= madr)%Z ->
+    exists D : Z -> R,
+      (forall t, is_derive (damper_force (tdamp (Z.rem w sh0) t) (tpoly (Z.rem w sh1) t)) (tvel w t) (D t)) /\
+      TD.k__qderiv_tendon_damping w e ntendon opt_timestep rownnz rowadr colind tdamp tpoly M_elemid ten_J_in tvel Mi Mj
+        qDeriv_out orc sh0 sh1 sh2
+      = [mkW "qDeriv_out" [w; madr] KSet
+           (VS (qDeriv_out w madr - h * sumZ (Z.to_nat ntendon) 0 (fun t => JJ t * D t)))].
+Proof. exact qderiv_tendon_damping_write. Qed.
+Print Assumptions C27_qderiv_tendon_damping_write.
 
 (* muscle gain: muscle_gain_vel is d muscle_gain / d velocity away from the three breakpoints
    V = -1, 0, fvmax - 1 of the force-velocity curve (V = vel / max(MINVAL, L0*vmax)).
